@@ -232,6 +232,7 @@ impl Monitor for C06 {
         for n in [169, 170, 171, 172, 340, 341, 2, 3, 1500] {
             v.push(format!("pop:{n}"));
         }
+        v.push("huge:0".to_string());
         for n in 2..=tier.pick(12, 24) {
             v.push(format!("lat:{n}"));
         }
@@ -244,7 +245,7 @@ impl Monitor for C06 {
         v
     }
     fn mandatory_buckets(&self, _tier: Tier) -> Vec<String> {
-        ["tuples", "ontology_with_obsolete_terms", "population_above_factorial_table", "population_within_factorial_table", "monotonicity_pairs", "background/whole", "background/subcollection", "call_form/ontology_and_set", "lattice_points"]
+        ["tuples", "background_above_65536_terms", "ontology_with_obsolete_terms", "population_above_factorial_table", "population_within_factorial_table", "monotonicity_pairs", "background/whole", "background/subcollection", "call_form/ontology_and_set", "lattice_points"]
             .iter()
             .map(|s| (*s).to_string())
             .collect()
@@ -345,6 +346,34 @@ impl Monitor for C06 {
                 out.bucket("background/whole");
                 out.sig = hash_u64s(&[0x1a7, idx as u64]);
                 out.case = Json::obj().set("kind", Json::s("complete (K,n,k) lattice")).set("N", Json::us(n_terms));
+            }
+            "huge" => {
+                // a background far beyond the complete HPO: N = 100 000 terms, K = n = 50 000, k = 45 000
+                // (products like k*N exceed 2^32)
+                let n_terms = 100_000usize;
+                let mut f = FactSet::default();
+                for i in 1..=n_terms as u32 {
+                    f.terms.push(TermFact { id: i, name: String::new(), obsolete: false, replaced_by: None });
+                }
+                for k in 0..3 {
+                    f.recs[k].push(RecFact { id: 7 + k as u32, name: format!("big{k}"), terms: (1..=50_000u32).collect() });
+                    f.recs[k].push(RecFact { id: 70 + k as u32, name: format!("small{k}"), terms: (49_990..=50_010u32).collect() });
+                }
+                let s = match build(f) {
+                    Ok(s) => s,
+                    Err(e) => {
+                        out.violate("C06", "construct_failed", e);
+                        return out;
+                    }
+                };
+                let all: Vec<u32> = (1..=n_terms as u32).collect();
+                let mut sample: Vec<u32> = (1..=45_000u32).collect();
+                sample.extend(50_001..=55_000u32);
+                self.check_call(&s, &all, &sample, &mut out, &mut pvals);
+                out.bucket("background_above_65536_terms");
+                out.bucket("background/whole");
+                out.sig = hash_u64s(&[0x4096, 1]);
+                out.case = Json::obj().set("kind", Json::s("N=100000 K=50000 n=50000 k=45000 for all three kinds"));
             }
             "mono" | "pop" | "rnd" => {
                 let n_terms = match parts[0] {
